@@ -223,8 +223,8 @@ def extract(repo, spec, contracts, mode, mutate=None):
     # ghost insertion
     secs = contracts.get(ex.id, [])
     ins = []   # (index, order, text)
-    bo = _fn_body_open(body)
-    ex.is_fn = bo is not None and any(t.text == "fn" for t in body[:bo])
+    bo = _fn_body_open(body) if not spec.get("block") else 0
+    ex.is_fn = bo is not None and not spec.get("block") and any(t.text == "fn" for t in body[:bo])
     if bo is None and any(r == "execconst" for r, _ in ex.rewrites):
         bo = next(i for i, t in enumerate(body) if t.text == "{" and i > 0)
         for i, t in enumerate(body):
@@ -304,7 +304,7 @@ class Built:
     def __init__(self):
         self.text = ""; self.items = []; self.labels = {}; self.line_item = []
         self.round_trip_ok = True; self.round_trip_msg = ""
-        self.trusted = []; self.gen_info = {}
+        self.trusted = []; self.gen_info = {}; self.template_canaries = []
 
 def build(unit_dir, repo, mode="verify", mutate=None):
     """mode: verify | canary.  mutate: (item id, from, to) or None."""
@@ -325,6 +325,15 @@ def build(unit_dir, repo, mode="verify", mutate=None):
         if not m:
             out_lines.append(ln); continue
         d, rest = m.group(1), m.group(2).strip()
+        if d == "canary":
+            # inside a hand-written ensures list of template text: expands to a canary clause in canary mode only
+            if mode == "canary":
+                cname = "canary_" + re.sub(r"\W", "_", rest)
+                out_lines.append(f"            //# canary:{rest}")
+                out_lines.append(f"            crate::{cname}(),")
+                out_lines.append("            //#-")
+                canaries.append(cname); B.template_canaries.append(rest)
+            continue
         if d == "gen":
             if genmod is None: raise UnitError("gen directive without gen.py")
             txt = genmod.gen(rest, ctx)
